@@ -85,8 +85,8 @@ var checks = map[string]*Check{
 	},
 	"C09": {
 		Legs:        []Leg{{World: "C09", Weight: 1}},
-		Probes:      []string{"forged_user_id_with_forwarding", "authorization_with_stripping", "websocket_handshake_seen"},
-		Rule:        "Real agent with all four combinations of -forward-user-id / -strip-credentials x shim x sessions vs fake proxy asserting a user per request and serving client requests that carry forged, repeated and odd-case X-Inverting-Proxy-User-ID and Authorization fields; 2..6 requests of several users in flight at once; plain HTTP and shim open (websocket handshake) observed at a recording backend.",
+		Probes:      []string{"forged_user_id_with_forwarding", "authorization_with_stripping", "websocket_handshake_seen", "user_id_named_hop_by_hop_by_client", "identity_with_escapes"},
+		Rule:        "Real agent with all four combinations of -forward-user-id / -strip-credentials x shim x sessions vs fake proxy asserting a user per request and serving client requests that carry forged, repeated and odd-case X-Inverting-Proxy-User-ID and Authorization fields (also named in the client's Connection header), asserted identities containing + and %XX; 2..6 requests of several users in flight at once; plain HTTP and shim open (websocket handshake) observed at a recording backend.",
 		Assumptions: commonAssumptions,
 		RealStub:    coreRealStub,
 	},
@@ -117,35 +117,35 @@ var checks = map[string]*Check{
 	},
 	"C11": {
 		Legs:        []Leg{{World: "C11", Weight: 3}, {World: "C11", Race: true, Weight: 1}},
-		Probes:      []string{"both_directions", "idle_poll_408", "data_post_more_than_10", "poll_returned_more_than_10", "injection_applied", "concurrent_sessions"},
+		Probes:      []string{"both_directions", "idle_poll_408", "data_post_more_than_10", "poll_returned_more_than_10", "injection_applied", "concurrent_sessions", "backend_closed_after_last_message", "session_opened_after_another_closed"},
 		Rule:        "Harness shim client (protocol of the injected script: open, then one data post and one poll outstanding at a time, close) -> real proxy -> real agent (shim handlers, relay goroutines) -> real gorilla websocket backend. one or two concurrent sessions; 0..30 (thorough ..120) messages per direction and session: ASCII/UTF-8 text, arbitrary binary, JSON documents; sizes 0..40 KB (thorough ..1 MiB); batches of 1..25 messages per data post; pauses up to 21 s (idle polls end in 408); protocol version 0/1/absent; header injection on in a third of the runs. Two FIFO reference queues compared at quiescence.",
 		Assumptions: commonAssumptions,
 		RealStub:    coreRealStub,
 	},
 	"C12": {
 		Legs:        []Leg{{World: "C12", Weight: 3}, {World: "C12", Race: true, Weight: 2}},
-		Probes:      []string{"concurrent_calls", "double_close_same_instant", "data_racing_close", "backend_closed_first", "odd_message_types"},
+		Probes:      []string{"concurrent_calls", "double_close_same_instant", "data_racing_close", "backend_closed_first", "odd_message_types", "backend_ignores_closing_handshake", "overlapping_opens"},
 		Rule:        "1..2 shim sessions and 2..10 data/poll/close calls with valid, unknown, malformed and empty arguments, most of them issued at the same simulated instant so that the scheduler interleaves them at the yield points inside the shim handlers and the connection (data vs close, close vs close, poll vs backend close); in a third of the runs the backend sends 0..14 messages and closes first. Every call must be answered with 200/400/408/500; calls after an answered close must get 400; crash monitor + race-detector leg.",
 		Assumptions: commonAssumptions,
 		RealStub:    coreRealStub,
 	},
 	"C13": {
 		Legs:        []Leg{{World: "C13", Weight: 1}},
-		Probes:      []string{"open_succeeded", "open_rejected", "non_shim_request", "backend_redirects_handshake"},
+		Probes:      []string{"open_succeeded", "open_rejected", "non_shim_request", "backend_redirects_handshake", "sibling_of_shim_prefix"},
 		Rule:        "1..6 concurrent shim open requests whose bodies come from a URL grammar (absolute, scheme-relative, path-only, opaque scheme:rest, empty, userinfo, IPv6 literals, odd ports, foreign and link-local hosts, control bytes) or are random byte strings, plus 0..3 requests on look-alike paths outside the shim prefix; closed-world SimNet records every address any goroutine of the agent's host dials. Input-dominated: the simulator's contribution is that no dial can escape observation.",
 		Assumptions: commonAssumptions,
 		RealStub:    coreRealStub,
 	},
 	"C10": {
 		Legs:        []Leg{{World: "C10", Weight: 3}, {World: "C10/lru", Weight: 1}, {World: "C10", Race: true, Weight: 2}, {World: "C10/lru", Race: true, Weight: 1}},
-		Probes:      []string{"session_issued", "cookies_restored", "concurrent_sessions", "lru_eviction", "late_response_after_eviction"},
+		Probes:      []string{"session_issued", "cookies_restored", "concurrent_sessions", "lru_eviction", "late_response_after_eviction", "interim_1xx", "public_suffix_domain_cookie", "session_cookie_presented_twice"},
 		Rule:        "1..4 (LRU leg: 3..6 with a window of 2) modelled browsers send 2..8 scripted requests over three hosts and four paths through real proxy and agent (-session-cookie-name) to a backend emitting generated Set-Cookie operations (set, overwrite, Path/Domain scoped, Max-Age, Secure/HttpOnly, delete, expired), with simulated gaps across expiry instants, then a burst of concurrent requests in all sessions plus two in one session. Reference: one independent net/http/cookiejar per modelled session on the same clock; values carry the session's tag so any foreign value is a leak.",
 		Assumptions: commonAssumptions,
 		RealStub:    coreRealStub,
 	},
 	"C14": {
 		Legs:        []Leg{{World: "C14", Weight: 1}},
-		Probes:      []string{"shim_script_injected", "banner_frame_served", "non_html_untouched", "already_framed_original_body", "head_straddles_first_kilobyte"},
+		Probes:      []string{"shim_script_injected", "banner_frame_served", "non_html_untouched", "already_framed_original_body", "head_straddles_first_kilobyte", "interim_1xx", "encoded_body_passed_through"},
 		Rule:        "Raw client -> real proxy -> real agent with -inject-banner and/or -shim-websockets -> raw scripted backend; the backend's own response is the reference. Generated: method, Accept, Sec-Fetch-Dest/Mode, Referer; status; Content-Type from unambiguous HTML and non-HTML families; Content-Disposition; bodies with <head> at offsets around 0 and the first kilobyte, repeated, upper-case or truncated; backend write boundaries through <head>; SimNet segmentation up to 80%. Input-dominated; the simulated dimension is how the body is split across reads.",
 		Assumptions: commonAssumptions,
 		RealStub:    coreRealStub,
